@@ -59,6 +59,7 @@ type ccase struct {
 		Pcts      int  `json:"pcts"`
 		Compress  bool `json:"compress"`
 		HistLimit int  `json:"histLimit"`
+		ResKeys   bool `json:"reskeys"`
 	} `json:"cfg"`
 	Series []sspec `json:"series"`
 	Pools  pools   `json:"pools"`
@@ -480,6 +481,9 @@ func send(t *testing.T, vr bk.Variant, c *ccase, disabled gostatsd.TimerSubtypes
 		env.MetricsPerBatch = c.Cfg.Batch
 		env.NoCompress = !c.Cfg.Compress
 		env.Disabled = disabled
+		if c.Cfg.ResKeys {
+			env.Set("otlp.resource_keys", []string{"zone"})
+		}
 		env.Logger = func() logrus.FieldLogger { l := logrus.New(); l.SetLevel(logrus.PanicLevel); return l }()
 		b, err := vr.New(env)
 		if err != nil {
